@@ -163,6 +163,31 @@ class _PrefixedSha256(object):
         return _PrefixedSha256(_h=self._h.copy())
 
 
+class _TinyBlockHash(object):
+    """A user-defined hash whose block_size is 8 (BLAKE2b-128 inside): the HMAC class and the one-shot hmac.digest() treat such
+    a declaration differently; the library's calls must all go the same way."""
+    name = "tinyblock"
+    digest_size = 16
+    block_size = 8
+
+    def __init__(self, data=b"", _h=None):
+        self._h = _h if _h is not None else hashlib.blake2b(digest_size=16)
+        if data:
+            self._h.update(data)
+
+    def update(self, data):
+        self._h.update(data)
+
+    def digest(self):
+        return self._h.digest()
+
+    def hexdigest(self):
+        return self._h.hexdigest()
+
+    def copy(self):
+        return _TinyBlockHash(_h=self._h.copy())
+
+
 def _mk_param_hashes():
     import functools
     out = {
@@ -170,6 +195,7 @@ def _mk_param_hashes():
         "blake2s_salt": functools.partial(hashlib.blake2s, salt=b"vfsalt"),
         "blake2b_keyed32": functools.partial(hashlib.blake2b, key=b"vf-key", digest_size=32),
         "prefixed_sha256": _PrefixedSha256,
+        "tinyblock": _TinyBlockHash,
         "sha3_384": hashlib.sha3_384,
         "lambda_sha1": lambda data=b"": hashlib.sha1(data),
     }
